@@ -69,8 +69,9 @@ def suffix_list_iter(txt):
             in_private_section = True
 
         # Puny code version
+        # NOTE: upstream writes some of them with a final dot
         if "// xn--" in line:
-            line = line.split()[1]
+            line = line.split()[1].rstrip(".")
 
         line = line.strip()
 
